@@ -24,6 +24,22 @@ def refine(state, cond, truth, blk=None):
     """Add facts implied by the branch; None when they contradict the state (infeasible edge)."""
     if isinstance(truth, tuple):
         # switch edges: integer equalities only
+        sc = X.strip(cond)
+        if sc is not None and sc.get("k") == "ref" and sc.get("maskdef") is not None:
+            # a mask local (bit i = condition i): the case value / the values the default excludes decide the conditions
+            if truth[0] == "case" and truth[1] is not None:
+                oc = X.mask_outcomes(sc["maskdef"], values={truth[1]})
+            elif truth[0] == "default":
+                oc = X.mask_outcomes(sc["maskdef"], excluded=set(truth[1] if len(truth) > 1 else ()))
+            else:
+                oc = []
+            if oc is None:
+                return None
+            for c_, t_ in oc:
+                state = refine(state, c_, t_, blk)
+                if state is None:
+                    return None
+            return state
         p = X.apath(cond)
         if p is None:
             return state
